@@ -122,7 +122,7 @@ def bit_oriented(obj, b, a, f):
     obj.dst = check_virtual(obj, dst)
     obj.a = a
     obj.b = b
-    obj.operands = [dst, b]
+    obj.operands = [dst, env.cst(b, 3)]
 
 
 # control operations format:
@@ -193,7 +193,7 @@ def control(obj, kh, kl):
 @ispec("16<[ 0000 0000 0001 000 s ]", mnemonic="RETFIE")
 @ispec("16<[ 0000 0000 0001 001 s ]", mnemonic="RETURN")
 def control(obj, s):
-    obj.operands = [s]
+    obj.operands = [env.cst(s, 1)]
     obj.type = type_control_flow
 
 
